@@ -481,6 +481,16 @@ def eval_file(desc, ctx):
         stt.append(X=np.array(X), Y=np.array(Y), Z=np.array(Z), temp=0.0)
         force = Forcing(mods, filename=str(d / "forcing_*.nc"), extra_forcing=["temp"])
         mods["forcing"] = force
+        # another forcing object over OTHER files with the other kind of storage (packed <-> float) comes to life in
+        # the same process while this one is in use
+        ddir = d / "neighbour"
+        ddir.mkdir(exist_ok=True)
+        if not (ddir / "other_000.nc").exists():
+            main_packed = inp["packs"][0] is not None
+            rf.write_roms(ddir / "other_000.nc", imax=imax0, jmax=jmax0, N=N, times=[0, 600, 1200, 1800], h=inp["h"], mask=inp["mask"],
+                          u=0.25, v=0.125, extra={"temp": 3.0}, dx=1000.0,
+                          packed=None if main_packed else {"u": 2.0 ** -10, "v": 2.0 ** -9, "temp": 2.0 ** -6}, **vertical_setup(desc))
+        neighbour = Forcing({"time": tk, "state": stt, "grid": grid}, filename=str(ddir / "other_*.nc"), extra_forcing=["temp"])
         try:
             for s_ in range(obs + 1):
                 # before the observed step the particles sit elsewhere (each at its neighbour's position, same
@@ -508,10 +518,11 @@ def eval_file(desc, ctx):
             if zr.shape != zr_file.shape or not np.allclose(zr, zr_file, rtol=1e-12, atol=1e-9):
                 problems.append(f"level depths of the loaded window differ from those the file's vertical set-up (hc={_hc}, Vtransform={_vt}) gives: subgrid={spec}")
         finally:
-            try:
-                force.close()
-            except Exception:
-                pass
+            for fo in (force, neighbour):
+                try:
+                    fo.close()
+                except Exception:
+                    pass
         # the particle's own water column (cell of Grid.depth: round(X) - i0) and its bracket
         KA = [own_level(zr[:, round(Y[n]) - g[2], round(X[n]) - g[0]], Z[n]) for n in range(P)]
         per_sub.append({"spec": spec, "U": U, "V": V, "T": tvar, "K": Kc, "A": Ac})
@@ -571,7 +582,7 @@ def eval_file(desc, ctx):
                                  and int(a["K"][n]) == int(b["K"][n]) and close(1, a["A"][n], b["A"][n])):
                 problems.append(f"particle X={X[n]} Y={Y[n]} Z={Z[n]} feels (u,v,temp,K,A)=({a['U'][n]}, {a['V'][n]}, {a['T'][n]}, {int(a['K'][n])}, {a['A'][n]}) "
                                 f"with subgrid {a['spec']} but ({b['U'][n]}, {b['V'][n]}, {b['T'][n]}, {int(b['K'][n])}, {b['A'][n]}) with subgrid {b['spec']} (storage={stall}, frame {obs})")
-    for f in d.glob("*.nc"):
+    for f in list(d.glob("*.nc")) + list((d / "neighbour").glob("*.nc")):
         f.unlink()
     kind = f"file-{stall}-{'exact' if exact else 'general'}-{desc['field']}-{desc['mask']}" + ("-file2" if fidx == 1 else "")
     return {"ints": coq, "oracle": problems[0] if problems else None, "nontrivial": ("file", desc["seed"], stall),
